@@ -274,3 +274,11 @@ func IteByte(c bool, a, b byte) byte {
 	}
 	return b
 }
+
+var stampCounter int64
+
+// Stamp returns the next value of a global ghost counter (invocation/response stamps). Under the engine it is
+// neither a scheduling point nor a memory access seen by the race detector.
+func Stamp() int {
+	return int(atomicAdd(&stampCounter))
+}
